@@ -99,8 +99,9 @@ async def request(
         except (aiohttp.ClientConnectionError, errors.APIServerError, asyncio.TimeoutError,
                 errors.APIForbiddenError, errors.APITooManyRequestsError) as e:
 
-            # If we are asked to retry later, do so, and obey the requested backoff.
-            if isinstance(e, errors.APITooManyRequestsError):
+            # If we are asked to retry later (429, but also 5xx, e.g. 503/504 from overloaded servers),
+            # do so, and obey the requested backoff.
+            if isinstance(e, errors.APIError):
                 if e.headers and e.headers.get("Retry-After"):
                     retry_after = int(float(e.headers["Retry-After"]))  # the new style
                 elif e.details and e.details.get("retryAfterSeconds"):
